@@ -1,6 +1,7 @@
 //! Rust-side engines (exhaustive enumerations with in-Rust reference models) and shared helpers.
 pub mod c09;
 pub mod c11;
+pub mod c12;
 pub mod c14;
 pub mod c15;
 #[cfg(feature = "fmt")]
